@@ -358,6 +358,29 @@ func runSeqCase(e *Env, c *jSeqCase) (err error) {
 	res := time.Duration(c.Res)
 	w := ex.EncodedWidth()
 	s1 := c.S1.build(c.E)
+	// operands are views into larger buffers, as the columns of a file row and the results of Truncate are: the
+	// bytes behind them belong to someone else and must stay as they are, too
+	view := func(s encoding.Sequence) (encoding.Sequence, []byte) {
+		if s == nil {
+			return nil, nil
+		}
+		buf := make([]byte, len(s)+40)
+		copy(buf, s)
+		for i := len(s); i < len(buf); i++ {
+			buf[i] = 0xAB
+		}
+		return encoding.Sequence(buf[:len(s)]), buf
+	}
+	tailIntact := func(s encoding.Sequence, buf []byte) bool {
+		for i := len(s); i < len(buf); i++ {
+			if buf[i] != 0xAB {
+				return false
+			}
+		}
+		return true
+	}
+	var buf1 []byte
+	s1, buf1 = view(s1)
 	var out encoding.Sequence
 	intact := true
 	var op string
@@ -366,22 +389,22 @@ func runSeqCase(e *Env, c *jSeqCase) (err error) {
 		before := append([]byte(nil), s1...)
 		out = s1.Truncate(w, res, c.T1.T(), c.T2.T())
 		out = append(encoding.Sequence(nil), out...)
-		intact = bytes.Equal(before, s1)
+		intact = bytes.Equal(before, s1) && tailIntact(s1, buf1)
 		op = fmt.Sprintf("OTrunc %s %s %s", galSeq(c.E, before), gtime(c.T1.T()), gtime(c.T2.T()))
 	case "update":
 		before := galSeq(c.E, s1)
 		out = s1.UpdateValue(c.T1.T(), c.P.params(), c.P.metadata(), ex, res, c.T2.T())
 		op = fmt.Sprintf("OUpdate %s %s %s %s", before, gtime(c.T1.T()), gtime(c.T2.T()), c.P.Gal())
 	case "merge":
-		s2 := c.S2.build(c.E)
+		s2, buf2 := view(c.S2.build(c.E))
 		b1, b2 := append([]byte(nil), s1...), append([]byte(nil), s2...)
 		out = s1.Merge(s2, ex, res, c.T2.T())
 		out = append(encoding.Sequence(nil), out...)
-		intact = bytes.Equal(b1, s1) && bytes.Equal(b2, s2)
+		intact = bytes.Equal(b1, s1) && bytes.Equal(b2, s2) && tailIntact(s1, buf1) && tailIntact(s2, buf2)
 		op = fmt.Sprintf("OMerge %s %s %s", galSeq(c.E, b1), galSeq(c.E, b2), gtime(c.T2.T()))
 	case "submerge":
 		sub := c.Sub.Real()
-		s2 := c.S2.build(c.Sub)
+		s2, buf2 := view(c.S2.build(c.Sub))
 		b2 := append([]byte(nil), s2...)
 		before := galSeq(c.E, s1)
 		sms := ex.SubMergers([]expr.Expr{sub})
@@ -399,7 +422,7 @@ func runSeqCase(e *Env, c *jSeqCase) (err error) {
 			mdg = "(Some " + glist(cs) + ")"
 		}
 		out = s1.SubMerge(s2, md, res, time.Duration(c.InRes), ex, sub, sms[0], c.T1.T(), c.T2.T(), time.Duration(c.Stride))
-		intact = bytes.Equal(b2, s2)
+		intact = bytes.Equal(b2, s2) && tailIntact(s2, buf2)
 		op = fmt.Sprintf("OSubMerge %s %s %s %s %s %s %s %s", before, galSeq(c.Sub, b2), gz(c.InRes), gtime(c.T1.T()), gtime(c.T2.T()), gz(c.Stride), c.Sub.Gal(), mdg)
 	}
 	g := fmt.Sprintf("{| qc_e := %s; qc_res := %s;\n   qc_op := %s;\n   qc_out := %s; qc_intact := %s |}", c.E.Gal(), gz(c.Res), op, galSeq(c.E, out), gbool(intact))
